@@ -275,7 +275,7 @@ func (rn *runner) shrink(f hlib.Failure) hlib.Failure {
 func child(seed uint64, cases, wordBudget int, out, replay, corpus, currentPath string) {
 	res := hlib.NewResult("codecxdrv", seed)
 	res.Rule = "EXPLORATION. One case = one byte string fed to one boundary entry point (target) together with the node's next processing step; inputs are valid encodings (built in-process, repository testdata, base64 literals harvested from the repository's tests) with 1-3 stacked mutations (generic: bit flips, interesting bytes, 16/32/64-bit length windows, truncation, extension, deletion, insertion, duplication, splice; CBOR-aware: declared count/length changes incl. huge, indefinite lengths, tags, nesting 1..5000, duplicated map pairs, major-type swaps), a few unmutated seeds and random strings; for *-resigned, chunk, rhp-body and quote-in-bundle targets the mutant is re-signed / re-compressed / re-framed so that it gets past the integrity check; DETERMINISTIC SWEEPS on every run: every length/type field of the PCS quote format at every nesting level (and every frame length prefix of the host-protocol streams) set to each boundary value (0, 1, 2, around the remaining and the total length, 2^7, 2^8, 2^15, 2^16, 2^31-k, 2^32-k for k = 1..16 and every 16 up to 0x400, 2^32-1-remaining), with resized and truncated tails, plus (budget -words per target, rotating with the seed) every 2-byte-aligned 16/32-bit word in both byte orders set to 0 / 2^15 / 2^31 / 2^32-1024 / 2^32-16 / max; LIVE targets: rhp-live-host / rhp-live-guest feed the stream to a real protocol.Connection over net.Pipe (oracle: follow-up request answered, one response per request, Close() and the outstanding call return within 20 s, no goroutine of the package left; a failing attempt is repeated once on a fresh connection), mux-tx / mux-raw / mux-resigned feed CheckTx, re-CheckTx and DeliverTx of a real ABCI multiplexer with 8 applications (mux-tx: correctly signed transactions with boundary-valued signer / nonce / fee amount x gas / method / body kind, a deterministic core of all amount x gas pairs and all methods x body kinds plus random draws from the product; a canary transfer must still pass CheckTx after every case); non-trivial = the entry point decoded the bytes (outcome other than a decode/envelope rejection); distinct by (target, bytes)"
-	res.Explanation = "EXPLORATION ONLY (search for a failing input; no theorem covers these decoders): panic / fatal error / timeout / allocation blow-up detection on third-party and reflection-driven decode boundaries, hang / goroutine-leak / lost-response detection on a live host-protocol connection, panic and canary detection on CheckTx/DeliverTx of a live multiplexer, plus run-time probes that the pinned strict CBOR options are in force. Counters per target: case:, accepts:, rejects:, outcome:, lenfield: (structure-aware boundary-length mutations applied), lenword: (generic word-level ones), sweep: (structured deterministic cases)"
+	res.Explanation = "EXPLORATION ONLY (search for a failing input; no theorem covers these decoders): panic / fatal error / timeout / allocation blow-up detection on third-party and reflection-driven decode boundaries, hang / goroutine-leak / lost-response detection on a live host-protocol connection, panic and canary detection on CheckTx/DeliverTx of a live multiplexer, plus run-time probes that the pinned strict CBOR options are in force. Counters per target: case:, accepts:, rejects:, outcome:, lenfield: (structure-aware boundary-length mutations applied), lenword: (generic word-level ones), sweep: (structured deterministic cases), structsweep: (every single key/value pair of every CBOR seed dropped, every single item replaced by null)"
 	rn := &runner{targets: map[string]*target{}, res: res, seen: map[uint64]bool{}, maxA: map[string]uint64{}}
 	if currentPath != "" {
 		rn.current, _ = os.OpenFile(currentPath, os.O_CREATE|os.O_RDWR, 0o644)
@@ -372,6 +372,25 @@ func child(seed uint64, cases, wordBudget int, out, replay, corpus, currentPath 
 			}
 		}
 	}
+	// Every seed as it is (live targets three times: their oracles depend on goroutine interleavings).
+	for _, t := range rn.order {
+		if t.gen != nil {
+			continue
+		}
+		reps := 1
+		if t.live {
+			reps = 2
+		}
+		for _, sd := range t.seeds {
+			for r := 0; r < reps; r++ {
+				if os.Getenv("VERIF_CX_ECHO") == t.name {
+					fmt.Fprintln(os.Stderr, "SEED "+t.name+" "+t.render(sd))
+				}
+				one(t.name+" "+t.render(sd), 0, false)
+				res.Count("seedpass:" + t.name)
+			}
+		}
+	}
 	// Deterministic sweeps (every run): structured boundary cases; every length / type field of
 	// every seed at every nesting level set to every boundary value, resized and truncated tails;
 	// and, within a budget, every 2-byte-aligned 16/32-bit word treated as a length field.
@@ -380,6 +399,16 @@ func child(seed uint64, cases, wordBudget int, out, replay, corpus, currentPath 
 			for _, d := range t.sweep() {
 				one(t.name+" "+t.render(d), 0, false)
 				res.Count("sweep:" + t.name)
+			}
+		}
+		if t.cbor && !t.live && t.gen == nil {
+			// every single missing field and every single null item of every seed
+			for _, sd := range t.seeds {
+				for _, m := range codeclib.StructSweep(sd, 1200) {
+					one(t.name+" "+t.render(m.Data), 0, true)
+					res.Count("structsweep:" + t.name)
+					res.Count("structsweep-kind:" + m.What)
+				}
 			}
 		}
 		if t.fields != nil {
